@@ -157,8 +157,18 @@ def pda_to_cfg(P: PDA, accepts_on_empty_stack: bool = False) -> CFG:
     if not accepts_on_empty_stack:
         pda_to_accept_on_empty_stack_in_place(P)
 
+    variables = {}
+    variable_names = set()
+
     def variable(p: State, q: State) -> Variable:
-        return Variable("{}'{}".format(p, q))
+        # state names may contain an apostrophe themselves: different pairs must not get the same name
+        if (p, q) not in variables:
+            name = "{}'{}".format(p, q)
+            while name in variable_names:
+                name = name + "'"
+            variable_names.add(name)
+            variables[p, q] = Variable(name)
+        return variables[p, q]
 
     Q = P.Q
     Sigma = P.Sigma
